@@ -19,6 +19,9 @@ Environment side (the assumptions about executors): a dispatched task runs once 
 are present on its host and publishes its outputs in index order; a transmit whose source holds
 the dataset stores it on the target (announcing it unless already there); a fetch answers with
 the stored value; a purge removes at once. Events reach the controller in ANY order and batching.
+A command is interpreted with everything it CARRIES at the Bridge API: `task_sequence(worker, tasks, publish)` — the
+body publishes only the outputs named in `publish` (`envStepP`, `envRunSpec`) —, `transmit(ds, source, target)`,
+`fetch(ds, source)`, `purge(host, ds)`.
 The environment also carries the ghost monitors of C02/C04 (`viol`).
 -/
 namespace EkwVerif.Ctrl
@@ -229,7 +232,7 @@ def notify (j : Job) : Ctl → List Event → Except Err Ctl
 
 inductive Cmd
   | transmit (ds : Ds) (src tgt : Host)
-  | taskSeq (w : Worker) (t : Task)
+  | taskSeq (w : Worker) (t : Task) (publish : List Ds)   -- TaskSequence(worker, tasks=[t], publish)
   | fetch (ds : Ds) (src : Host)
   | purge (h : Host) (ds : Ds)
 deriving DecidableEq, Repr
@@ -276,10 +279,16 @@ def assignOne (j : Job) (cl : Cluster) (c : Ctl) (a : Asg) : Except Err (Ctl × 
       .ok ({ c with computable := c.computable.erase a.task, idle := c.idle.erase a.worker,
                     dispatched := upd c.dispatched a.task (c.dispatched a.task + 1) }, prep)
 
-/-- `controller.act.act` -/
-def actCmds (a : Asg) (prep : List (Ds × Host)) : List Cmd :=
+/-- `Assignment.outputs` as `build_assignment` computes it (`{ds for ds in state.task_o[task]}`: ALL declared outputs of
+the task; the code's TODO "trim for only the necessary ones" is not implemented) — the set `act` copies into
+`TaskSequence.publish` -/
+def asgOutputs (j : Job) (t : Task) : List Ds := j.outputsOf t
+
+/-- `controller.act.act`: a transmit command for every prep entry whose source is another host, then the task sequence
+carrying `publish = assignment.outputs` -/
+def actCmds (j : Job) (a : Asg) (prep : List (Ds × Host)) : List Cmd :=
   (prep.filter (fun p => p.2 != a.worker.host)).map (fun p => Cmd.transmit p.1 p.2 a.worker.host)
-    ++ [Cmd.taskSeq a.worker a.task]
+    ++ [Cmd.taskSeq a.worker a.task (asgOutputs j a.task)]
 
 /-- `scheduler.api._set_preparing_at` (status part) -/
 def setPreparingAt (c : Ctl) (ds : Ds) (w : Worker) : Ctl :=
@@ -329,6 +338,9 @@ structure Env where
   dispatchedE : Task → Nat
   viol : List String                     -- monitor failures (C02 / C04)
   log : List Cmd                         -- every command received, in order
+  -- what the latest task sequence naming `t` CARRIED: its `publish` set, and whether that set omits a declared output
+  pubOf : Task → List Ds
+  trimmed : Task → Bool
 
 def Env.init : Env where
   present := fun _ _ => none
@@ -342,6 +354,8 @@ def Env.init : Env where
   dispatchedE := fun _ => 0
   viol := []
   log := []
+  pubOf := fun _ => []
+  trimmed := fun _ => false
 
 def Env.flag (e : Env) (cond : Bool) (msg : String) : Env := if cond then e else { e with viol := e.viol ++ [msg] }
 
@@ -351,11 +365,14 @@ def inboundTransmit (e : Env) (ds : Ds) (h : Host) : Bool :=
 def outboundIO (e : Env) (ds : Ds) (h : Host) : Bool :=
   e.outstanding.any (fun o => match o with | .transmit d s _ => d == ds && s == h | .fetch d s => d == ds && s == h)
 
+/-- does the `publish` set of a task sequence contain every declared output of the task? -/
+def publishCovers (j : Job) (t : Task) (pub : List Ds) : Bool := (j.outputsOf t).all (fun ds => pub.contains ds)
+
 /-- apply one controller command; the monitors are the clauses of C02 and C04 -/
 def applyCmd (j : Job) (cl : Cluster) (e0 : Env) (cmd : Cmd) : Env :=
   let e := { e0 with log := e0.log ++ [cmd] }
   match cmd with
-  | .taskSeq w t =>
+  | .taskSeq w t pub =>
     let e := e.flag (cl.ids.contains w) "C02 unknown-worker"
     let e := e.flag (!(e.queued.any (·.1 == w))) "C02 busy-worker"
     let e := e.flag (e.dispatchedE t == 0) "C02 double-dispatch"
@@ -364,7 +381,8 @@ def applyCmd (j : Job) (cl : Cluster) (e0 : Env) (cmd : Cmd) : Env :=
     let e := e.flag ((j.inputs t).all (fun d => !(e.purged.contains (w.host, d)))) "C04 input-purged-on-target"
     let e := e.flag ((j.inputs t).all (fun d => (e.present w.host d).isSome || inboundTransmit e d w.host))
       "C02 input-neither-present-nor-in-transfer"
-    { e with queued := e.queued ++ [(w, t)], dispatchedE := upd e.dispatchedE t (e.dispatchedE t + 1) }
+    { e with queued := e.queued ++ [(w, t)], dispatchedE := upd e.dispatchedE t (e.dispatchedE t + 1),
+             pubOf := upd e.pubOf t pub, trimmed := upd e.trimmed t (!(publishCovers j t pub)) }
   | .transmit ds src tgt =>
     let e := e.flag ((e.present src ds).isSome) "C04 transmit-from-missing"
     { e with outstanding := e.outstanding ++ [IO.transmit ds src tgt] }
@@ -419,6 +437,31 @@ def envStep (f : Sem) (j : Job) (e : Env) : EnvStep → Option Env
         match e.present src ds with
         | none => some (e.flag false "C04 io-source-gone fetch")
         | some v => some { e with pending := e.pending ++ [Event.payload ds v] }
+
+/-- publication of the outputs in `outs` only: an output outside the publish set stays in the worker's local memory,
+reaches no host store and is never announced (`runner.run`: `outputId in executionContext.publish`) -/
+def publishList (f : Sem) (w : Worker) (t : Task) (args : List Val) (outs : List Ds) (e : Env) : Env :=
+  outs.foldl (fun e ds =>
+    { e with present := upd e.present w.host (upd (e.present w.host) ds (some (f t ds.out args))),
+             produced := upd e.produced ds true,
+             pending := e.pending ++ [Event.pubW w ds] }) e
+
+/-- **What a task body publishes is what its task sequence carried**: the body of a queued task whose inputs are on its
+host runs and publishes exactly those of its outputs that are in the `publish` set of the command (`Env.pubOf`). -/
+def envRunSpec (f : Sem) (j : Job) (e : Env) (w : Worker) (t : Task) : Option Env :=
+  if e.queued.contains (w, t) && (j.inputs t).all (fun d => (e.present w.host d).isSome) then
+    let args := (j.inputs t).map (fun d => (e.present w.host d).getD "")
+    let e1 := { e with queued := e.queued.erase (w, t), ran := upd e.ran t true }
+    some (publishList f w t args ((j.outputsOf t).filter (fun ds => (e.pubOf t).contains ds)) e1)
+  else none
+
+/-- the environment step of the system. A body whose command carried a publish set that omits a declared output
+(`Env.trimmed`) publishes only what the set names (`envRunSpec`); otherwise all outputs are published and the step is
+`envStep`. (`envStepP_spec`, Lemmas/CtrlPub.lean: in every state reachable by commands this is `envRunSpec` in both
+cases; the split exists so that the invariant proofs of the untrimmed case need not mention the publish set.) -/
+def envStepP (f : Sem) (j : Job) (e : Env) : EnvStep → Option Env
+  | .run w t => if e.trimmed t then envRunSpec f j e w t else envStep f j e (.run w t)
+  | .io i => envStep f j e (.io i)
 
 /-- remove the events of a delivered batch from `pending` (any order, any sub-multiset) -/
 def takeEvents : List Event → List Event → Option (List Event)
@@ -487,7 +530,7 @@ def step (f : Sem) (j : Job) (cl : Cluster) (s : Sys) : Step → Option Sys
       | .error (.oracle _) => none          -- not an admissible choice: no such behaviour
       | .error (.raised e) => some (s.crash e)
       | .ok (c, prep) =>
-        some { s with ctl := c, env := applyCmds j cl s.env (actCmds a prep), todo := s.todo ++ [(a, prep)] }
+        some { s with ctl := c, env := applyCmds j cl s.env (actCmds j a prep), todo := s.todo ++ [(a, prep)] }
   | .endAssign => if s.phase != .assigning then none else some { s with phase := .planning }
   | .plan1 =>
     if s.phase != .planning then none
@@ -535,7 +578,7 @@ def step (f : Sem) (j : Job) (cl : Cluster) (s : Sys) : Step → Option Sys
   | .endNotify => if s.phase != .notifying || !s.inbox.isEmpty then none else some { s with phase := .top }
   | .env es =>
     if s.phase == .finished || s.phase == .crashed then none
-    else (envStep f j s.env es).map (fun e => { s with env := e })
+    else (envStepP f j s.env es).map (fun e => { s with env := e })
 
 /-- all states reachable from the initial one by enabled steps -/
 inductive Reachable (f : Sem) (j : Job) (cl : Cluster) : Sys → Prop
